@@ -83,6 +83,7 @@ class EngineSource:
         self.e = engine
         self.prims = prims
         self.mode = "sym" if prims is None else "concrete"
+        self.scope = None  # finite-scope refutation mode: sequence lengths fixed to this number
         self.decl = {}  # name -> ('int'|'bool'|'enum'|'intlist', payload)
 
     def int(self, name):
@@ -111,6 +112,10 @@ class EngineSource:
         from .values import SList
         if self.prims is not None:
             return list(self.prims[name])
+        if self.scope is not None:
+            vals = [z3.Int(f"{name}_{k}") for k in range(self.scope)]
+            self.decl[name] = ("fixedlist", vals)
+            return vals
         if length is not None:
             ln = length
         else:
@@ -190,6 +195,8 @@ class EngineSource:
             elif kind == "enum":
                 idx = model.eval(v.idx, model_completion=True).as_long()
                 out[name] = v.members[idx][0]
+            elif kind == "fixedlist":
+                out[name] = [model.eval(x, model_completion=True).as_long() for x in v]
             elif kind == "symstr":
                 arr, ln, alphabet = v
                 n = model.eval(ln, model_completion=True).as_long()
